@@ -386,7 +386,7 @@ PROPS['C18'] = dict(
 _C19_T = ('SPECIFICATION MCSpec\nINVARIANT InOrderExactlyOnce\nINVARIANT MalformedNeverDelivered\nINVARIANT NothingLost\n'
           'PROPERTY CtxUnblocks\nCHECK_DEADLOCK FALSE\nCONSTANT Off = {}\n')
 _C19_H = ('SPECIFICATION FairSpec\nINVARIANT NoCrash\nINVARIANT LadderSound\nINVARIANT AtMostOnce\nINVARIANT OkIffDelivered\n'
-          'INVARIANT ReadersCount\nINVARIANT LegitPending\nPROPERTY ReadUnblocks\nPROPERTY ServeUnblocks\nCHECK_DEADLOCK FALSE\n'
+          'INVARIANT ReadersCount\nINVARIANT LegitPending\nINVARIANT LiveConnsRegistered\nPROPERTY ReadUnblocks\nPROPERTY ServeUnblocks\nCHECK_DEADLOCK FALSE\n'
           'CONSTANTS\n Addrs = {"x"}\n Reqs = {1, 2}\n Rdrs = {1}\n Timeout = 2\n Interval = 1\n MaxConns = 2\n')
 _C19_LADDER = _C19_H + (' UseShapes = {"nobody", "unreadable", "undecodable", "nohdr", "nosrc", "maperr", "ok"}\n'
                         ' Advances = {}\n MaxTime = 0\n Writes = FALSE\n')
@@ -417,10 +417,13 @@ def _c19_models():
                    constants='2 requests x {ok, nosrc}, 1 reader, timeout 2, interval 1, clock 0..3 advanced by 1 or 2, '
                              '<= 2 connection objects, Write ok / failing'))
     for bug, viol in (('CloseReadCh', 'Invariant NoCrash is violated'), ('ReadIgnoresCtx', 'Invariant LegitPending is violated'),
-                      ('ServeIgnoresCtx', 'Invariant LegitPending is violated'), ('NoSourceCheck', 'Invariant LadderSound is violated')):
+                      ('ServeIgnoresCtx', 'Invariant LegitPending is violated'), ('NoSourceCheck', 'Invariant LadderSound is violated'),
+                      ('RetrieveNoRecheck', 'Invariant LiveConnsRegistered is violated')):
         ms.append(dict(name='HttpTransport Bug_' + bug, spec='HttpTransport.tla', cfg=_C19_CLEAN + ' Bug = {"%s"}\n' % bug, workers=8,
                        constants='Bug = {%s} re-enabled: TLC must report the violation (search stops at the counter-example)' % bug,
                        expect_violation=viol))
+    for m in ms:
+        m.setdefault('heap', '2g')      # the largest model has 192 k states: no need to reserve 8 GB per run
     return ms
 
 
@@ -435,8 +438,11 @@ PROPS['C19'] = dict(
          'random bytes, mutated encodings) interleaved with valid envelopes; every ServeHTTP request shape; the cleaner '
          'tick placed before the request / in the retrieve->send window (gate http.serve.window) / while the sender is '
          'blocked / with a reader pending / after the delivery x 4 (timeout, interval) pairs x 8 advance amounts around '
-         'interval and timeout x {never active, active}; non-trivial = writes, injects or serves something',
-    nontrivial_ops=['w', 'raw', 'hs'],
+         'interval and timeout x {never active, active}; k = 2..8 simultaneous first requests of a fresh source (every '
+         'third time racing NewConnection for its address), 25 sources per scenario x 60 (quick) / 400 (thorough), every '
+         'announced connection read by a loop, then the clock passes the idle timeout; '
+         'non-trivial = writes, injects or serves something',
+    nontrivial_ops=['w', 'raw', 'hs', 'burst'],
     assumptions=[
         'TLC and the TLA+ CommunityModules (Json, IOUtils) are correct',
         'equality of envelopes is decided on a digest computed by the harness (SHA-256 over the deterministic protobuf '
